@@ -138,7 +138,9 @@ pub fn gen_stmt(rng: &mut Rng) -> GenStmt {
             // one aggregate statement in four is SELECT DISTINCT (DISTINCT acts on the printed table, never on the pairs counted)
             GenStmt { head: format!("SELECT {}{}", if rng.chance(1, 4) { "DISTINCT " } else { "" }, items.join(", ")), tail, kind, refs: None }
         }
-        Kind::Distinct => { let r = cols(rng); GenStmt { head: format!("SELECT DISTINCT {}", proj(&r)), tail: String::new(), kind, refs: None } }
+        // one DISTINCT statement in three is `SELECT DISTINCT *`: every column of both sides belongs to the tuple (a pair of partners
+        // that differ only in a joined column with a clashing name are two rows)
+        Kind::Distinct => { let r = cols(rng); GenStmt { head: if rng.chance(1, 3) { "SELECT DISTINCT *".to_owned() } else { format!("SELECT DISTINCT {}", proj(&r)) }, tail: String::new(), kind, refs: None } }
         Kind::Limit => {
             let r = cols(rng);
             let head = if rng.chance(1, 4) { "SELECT *".to_owned() } else { format!("SELECT {}", proj(&r)) };
